@@ -108,6 +108,9 @@ func c19EncodeOne(c *core.Ctx, env *drv.Env, sql string, only *c19EncPayload) {
 }
 
 func c19EncodeRun(c *core.Ctx) {
+	if c19ExtOff(c, "encode") {
+		return
+	}
 	dir := core.Scratch("c19encode")
 	env := drv.New(dir)
 	defer func() { env.Close() }()
